@@ -228,6 +228,8 @@ def gen(rng, n):
                 pps.sort(key=lambda p: idx.get(sol.TrajectoryType[p["ty"]].value, 99))
             c = {"op": "doc", "sid": sid, "ver": ver, "pps": pps}
             rand_meta(rng, c)
+            if rng.random() < 0.25:
+                c["file"] = True    # also through write_to_file / open, over an existing longer file
             if rng.random() < 0.3:
                 # a cost function the vehicle model of one entry does not admit is assigned (and refused)
                 j = rng.randrange(m)
@@ -343,6 +345,34 @@ def read(data):
         return ("exc", type(e).__name__ + ": " + str(e)[:80])
 
 
+def file_roundtrip(solution):
+    """the document written to a FILE (over an existing, longer one, with overwrite=True) and opened again;
+    -> None | (signature, what)"""
+    import shutil
+    import tempfile
+    d = tempfile.mkdtemp(prefix="verif-c14-", dir="/var/tmp")
+    try:
+        w = sol.CommonRoadSolutionWriter(solution)
+        try:
+            w.write_to_file(d, "s.xml", overwrite=False, pretty=True)      # the longer rendering first
+            w.write_to_file(d, "s.xml", overwrite=True, pretty=False)      # then the compact one over it
+        except Exception as e:  # noqa
+            return ("file:write raises " + type(e).__name__, f"write_to_file raises {type(e).__name__}: {str(e)[:100]}")
+        try:
+            with warnings.catch_warnings():
+                warnings.simplefilter("ignore")
+                back = sol.CommonRoadSolutionReader.open(os.path.join(d, "s.xml"))
+        except Exception as e:  # noqa
+            return ("file:overwritten file cannot be read:" + type(e).__name__,
+                    f"a solution written with overwrite=True over a longer existing file cannot be opened again: "
+                    f"{type(e).__name__}: {str(e)[:100]}")
+        if back.benchmark_id != solution.benchmark_id or back.planning_problem_ids != solution.planning_problem_ids:
+            return ("file:overwritten file reads back differently", f"{solution.benchmark_id!r} -> {back.benchmark_id!r}")
+        return None
+    finally:
+        shutil.rmtree(d, ignore_errors=True)
+
+
 def lxml_valid(data):
     try:
         doc = etree.fromstring(data if isinstance(data, bytes) else data.encode("utf-8"))
@@ -416,6 +446,10 @@ def oracle(c):
         return (f"read:{kind}:{what}", f"reader raises {r[1]} on the writer's own output "
                                        f"(types {tys}, date {c['date']})")
     back = r[1]
+    if c.get("file"):
+        fr = file_roundtrip(solution)
+        if fr:
+            return fr
     rp = read(pretty)
     if rp[0] != "ok":
         return (f"read-pretty:{rp[1].split(':')[0]}", f"reader raises {rp[1]} on dump(pretty=True)")
